@@ -126,3 +126,51 @@ Proof.
     try (apply within_Q2R; assumption).
   destruct Hd as [D|[D|[D|D]]]; apply Qlt_Rlt in D; auto.
 Qed.
+
+(* ---------------- end-point hits (tangent_bbox_intersection / endpoint_check) ----------------
+   The end nodes of a restriction are the points of the ORIGINAL curve at the ends of its parameter interval, so when the two
+   end nodes compared by endpoint_check are equal, the lifted parameters (1-s) start + s end, s in {0,1}, are a genuine
+   common point of the original curves. *)
+Local Open Scope R_scope.
+Lemma RLaws01 : Laws01 ROps.
+Proof. constructor; intros x; cbn [oadd omul o0 o1 ROps]; lra. Qed.
+Lemma B_at_0 (c : list R) : c <> [] -> B c 0 = hd 0 c.
+Proof.
+  intros Hne. unfold B. replace (1 - 0) with 1 by lra.
+  rewrite <- (eval_dc_correct ROps RRing) by exact Hne. apply (eval_dc_at_0 ROps RLaws01). exact Hne.
+Qed.
+Lemma B_at_1 (c : list R) : c <> [] -> B c 1 = last c 0.
+Proof.
+  intros Hne. unfold B. replace (1 - 1) with 0 by lra.
+  rewrite <- (eval_dc_correct ROps RRing) by exact Hne. apply (eval_dc_at_1 ROps RLaws01). exact Hne.
+Qed.
+Lemma Restr_ends ox oy cx cy a b : Restr ox oy cx cy a b ->
+  B ox a = hd 0 cx /\ B ox b = last cx 0 /\ B oy a = hd 0 cy /\ B oy b = last cy 0.
+Proof.
+  intros (Hx & Hy & Lx & Ly & _).
+  assert (Nx : cx <> []) by (destruct cx; [cbn [List.length] in Lx; lia|discriminate]).
+  assert (Ny : cy <> []) by (destruct cy; [cbn [List.length] in Ly; lia|discriminate]).
+  repeat split.
+  - rewrite <- (B_at_0 cx Nx), (Hx 0). f_equal. lra.
+  - rewrite <- (B_at_1 cx Nx), (Hx 1). f_equal. lra.
+  - rewrite <- (B_at_0 cy Ny), (Hy 0). f_equal. lra.
+  - rewrite <- (B_at_1 cy Ny), (Hy 1). f_equal. lra.
+Qed.
+
+(* end node of a restriction: s = false -> first node, s = true -> last node; and the lifted parameter *)
+Definition end_node (c : list R) (s : bool) : R := if s then last c 0 else hd 0 c.
+Definition lift (a b : R) (s : bool) : R := (1 - (if s then 1 else 0)) * a + (if s then 1 else 0) * b.
+Theorem endpoint_hit_is_genuine o1x o1y o2x o2y c1x c1y c2x c2y a1 b1 a2 b2 (s t : bool) :
+  Restr o1x o1y c1x c1y a1 b1 -> Restr o2x o2y c2x c2y a2 b2 ->
+  end_node c1x s = end_node c2x t -> end_node c1y s = end_node c2y t ->
+  B o1x (lift a1 b1 s) = B o2x (lift a2 b2 t) /\ B o1y (lift a1 b1 s) = B o2y (lift a2 b2 t).
+Proof.
+  intros R1 R2 Ex Ey.
+  destruct (Restr_ends _ _ _ _ _ _ R1) as (A1 & A2 & A3 & A4).
+  destruct (Restr_ends _ _ _ _ _ _ R2) as (B1 & B2 & B3 & B4).
+  unfold lift, end_node in *.
+  destruct s, t;
+    repeat match goal with |- context [(1 - 1) * ?a + 1 * ?b] => replace ((1 - 1) * a + 1 * b) with b by lra end;
+    repeat match goal with |- context [(1 - 0) * ?a + 0 * ?b] => replace ((1 - 0) * a + 0 * b) with a by lra end;
+    split; congruence.
+Qed.
